@@ -18,6 +18,7 @@ impl Q {
     pub fn is_infinite(self) -> bool { self.0.is_infinite() }
     pub fn is_finite(self) -> bool { self.0.is_finite() }
     pub fn abs(self) -> Q { Q(self.0.abs()) }
+    pub fn trunc(self) -> Q { Q(self.0.trunc()) }
     pub fn max(self, o: Q) -> Q { Q(self.0.max(o.0)) }
     pub fn min(self, o: Q) -> Q { Q(self.0.min(o.0)) }
     pub fn inf() -> Q { Q(f64::INFINITY) }
